@@ -311,6 +311,19 @@ func (env *cenv) importedPkg(name string) *types.Package {
 	if env.pkg == nil {
 		return nil
 	}
+	// import aliases (supvmodel "go.amzn.com/lambda/supervisor/model") are only visible in the syntax
+	if pp, ok := env.g.eng.AllPkgs[env.pkg.Path()]; ok {
+		for _, f := range pp.Syntax {
+			for _, imp := range f.Imports {
+				if imp.Name != nil && imp.Name.Name == name {
+					path := strings.Trim(imp.Path.Value, "\"")
+					if ip, ok := env.g.eng.AllPkgs[path]; ok && ip.Types != nil {
+						return ip.Types
+					}
+				}
+			}
+		}
+	}
 	for _, imp := range env.pkg.Imports() {
 		if imp.Name() == name {
 			return imp
@@ -612,6 +625,14 @@ func (env *cenv) call(e *CExpr) cval {
 			env.fail("lastret(%s): the event never occurs in this function", ev)
 		}
 		return cval{term: g.get(env.cur, rn), sort: srt, typ: g.retTypes[ev]}
+	case "lastarg":
+		// lastarg(E, k): k-th argument (0 = receiver of a method/interface call) of the last occurrence of call event E
+		an := fmt.Sprintf("G.arg.%s.%s", args[0].Name, args[1].Name)
+		srt, ok := g.varSort[an]
+		if !ok {
+			env.fail("lastarg(%s,%s): the event never occurs in this function", args[0].Name, args[1].Name)
+		}
+		return cval{term: g.get(env.cur, an), sort: srt, typ: g.argTypes[an]}
 	case "now":
 		g.stateVar("G.now", "Int")
 		return env.intv(g.get(env.cur, "G.now"))
